@@ -643,7 +643,7 @@ func (d *decoder) parseDataFields(dm *defmsg, knownMsg bool, msgv reflect.Value)
 			if pfield.t.BaseType() != types.BaseString && !pfield.t.Array() {
 				padding = pfield.t.BaseType().Size() - dsize
 			}
-		} else if d.opts.unknownFields {
+		} else if knownMsg && d.opts.unknownFields {
 			d.unknownFields[unknownField{dm.globalMsgNum, dfield.num}]++
 		}
 
